@@ -6,6 +6,7 @@ CONSTANTS
   Rank <- TrRank
   Stream <- TrStream
   MaxCrashes = 5
+  Repair <- TrRepair
   Score <- TrScore
   IdLess <- TrIdLess
   Ref <- TrRef
